@@ -120,6 +120,16 @@ def _total(layout, vals, names, N):
 
 def expected_slot(call, key):
     ic = call.ic
+    if getattr(call, 'dense_Ks', False) and key in ('SkKs', 'IkKs', 'RkKs', 'SkIl', 'SkSl', 'IkIl'):
+        # direct call with Ks=None: everything is indexed by the degree itself
+        if key in ('SkKs', 'IkKs', 'RkKs'):
+            return np.asarray(ic[key[:2]], dtype=float)
+        m1 = len(ic['Sk'])
+        D = np.zeros((m1, m1))
+        for a, ka in enumerate(ic['Ks']):
+            for b, kb in enumerate(ic['Ks']):
+                D[ka, kb] = ic[key][a, b]
+        return D
     if key in ('S', 'I', 'R', 'SS', 'SI', 'II'):
         return float(ic[key])
     if key in ('Sk', 'Ik', 'Rk', 'SkIl', 'SkSl', 'IkIl', 'Ssi', 'Isi', 'Ssi_sir', 'Skappa'):
